@@ -22,11 +22,13 @@ import (
 
 	"github.com/arr-ai/arrai/pkg/arrai"
 	"github.com/arr-ai/arrai/pkg/arraictx"
+	"github.com/arr-ai/arrai/pkg/ctxfs"
 	"github.com/arr-ai/arrai/pkg/fu"
 	"github.com/arr-ai/arrai/rel"
 	"github.com/arr-ai/arrai/syntax"
 
 	"aaverif/run"
+	"aaverif/simfs"
 	"aaverif/tape"
 )
 
@@ -127,6 +129,16 @@ var catalogue = []expr{
 	{"sum-int", "N sum ."}, {"sum-int", "R sum .x"}, {"sum-float", "F sum ."}, {"mean-float", "F mean ."}, {"mean-int", "N mean ."},
 	{"max", "F max ."}, {"min", "N min ."}, {"median", "N median ."}, {"count", "(N | F) count"},
 	{"nest", "R nest |x|g"}, {"nest", "R nest ~|y|g"}, {"join", "R <&> R2"}, {"join", "R -&- R2"}, {"join", "R <-> R2"}, {"join", "(R <&> R2) orderby [.x, .y, .z]"},
+	// chains of joins: rows of a join result are joined again, one-to-many, then counted or printed
+	{"join-chain", "(R <&> R2) <&> R3"}, {"join-chain", "((R <&> R2) <&> R3) count"}, {"join-chain", "((R <&> R2) <&> R3) => .w"},
+	{"join-chain", "(R <&> R2 <&> R3) orderby [.x, .y, .z, .w]"},
+	// the same relation joined, extended and joined again on the same key, in an order the enumeration decides
+	{"join-after-extension", "N => \\i ((cond {i = (N min .): R, _: R with (x: 100 + i, y: 1)}) <&> R2) count"},
+	{"join-after-extension", "N => \\i ((cond {i = (N max .): R, _: R | {(x: 200 + i, y: 2)}}) <&> R2) count"},
+	// --out=dir: what ends up on the (simulated) disk, and whether the command failed, must not depend on the
+	// order in which the description's entries are enumerated
+	{"out-dir", "D >> \\v $\"${v}\""}, {"out-dir", "(D >> \\v $\"${v}\") +> {\"zzbad\": (file: 42)}"},
+	{"out-dir", "(D >> \\v $\"${v}\") +> {\"a0\": (ifExists: \"bogus\", file: \"x\")}"},
 	{"map", "N => . % 7"}, {"map", "R => .y"}, {"where", "N where . % 2 = 0"}, {"where", "R where .y > 1"},
 	{"union", "N | (N => . + 3)"}, {"intersect", "N & (N => . + 3)"}, {"diff", "N &~ (N => . + 3)"},
 	{"merge-dict", "D +> D2"}, {"merge-tuple", "T +> T2"}, {"dict-union", "D | D2"},
@@ -267,9 +279,9 @@ func Run(c *run.Ctx) {
 	t := c.Tape
 	g := &gen{t}
 	size := func() int { return t.Range(9, 24) } // frozen keeps insertion order for <= 8 members
-	names := []string{"N", "F", "S", "R", "R2", "D", "D2", "T", "T2"}
+	names := []string{"N", "F", "S", "R", "R2", "D", "D2", "T", "T2", "R3"}
 	srcs := []string{g.nums(size(), false), g.nums(size(), true), g.strs(size()), g.rel(size(), [2]string{"x", "y"}), g.rel(size(), [2]string{"y", "z"}),
-		g.dict(size()), g.dict(size()), g.tuple(size()), g.tuple(size())}
+		g.dict(size()), g.dict(size()), g.tuple(size()), g.tuple(size()), g.rel(size(), [2]string{"w", "z"})}
 	lets := ""
 	for i, n := range names {
 		lets += fmt.Sprintf("let %s = %s; ", n, srcs[i])
@@ -301,11 +313,26 @@ func Run(c *run.Ctx) {
 		Text   string `json:"text"`   // first bytes of the output, for messages
 	}
 	var outs []one
+	outDir := false
 	eval := func(src string) (out []byte, repr string, failed bool) {
 		msg, _, p := run.Guard(func() {
 			v, err := syntax.EvalWithScope(ctx, "", src, scope)
 			if err != nil {
 				failed = true
+				return
+			}
+			if outDir {
+				disk := simfs.New("disk", "/w")
+				disk.PutDir("/w")
+				octx := ctxfs.RuntimeFsOnto(ctx, disk)
+				oerr := arrai.OutputValue(octx, v, nil, "dir:/w/out")
+				var lines []string
+				for p, c := range disk.Snapshot() {
+					lines = append(lines, p+"="+c)
+				}
+				sort.Strings(lines)
+				out = []byte(fmt.Sprintf("failed=%v\n%s\n", oerr != nil, strings.Join(lines, "\n")))
+				repr = "out-dir"
 				return
 			}
 			var buf bytes.Buffer
@@ -323,6 +350,7 @@ func Run(c *run.Ctx) {
 		return
 	}
 	for _, e := range exprs {
+		outDir = e.Feat == "out-dir"
 		o1, r1, f1 := eval(e.Src)
 		o2, _, f2 := eval(e.Src)
 		c.Step()
